@@ -339,6 +339,59 @@ fn imports_that_do_not_complete() -> Vec<Case> {
         c.modules = modules;
         out.push(c);
     }
+    // (c) chains: l1 imports l2 imports l3 (imports l4); the module at level `thrower` throws while a
+    // condition holds, the exception leaves every module body above it in one go and is caught in main (or
+    // in a fiber): every module of the chain at or above the thrower is not loaded, those below it are;
+    // the next attempt runs exactly the bodies that did not complete
+    for len in 2..=4usize {
+        for thrower in 1..=len {
+            for in_fiber in [false, true] {
+                let mut modules = BTreeMap::new();
+                modules.insert("chaincfg".to_string(), ModuleSource { program: Some(vec![var_stmt("fail", Expr::True)]), compile_error: false });
+                for level in 1..=len {
+                    let name = format!("l{}", level);
+                    let mut body = vec![print_stmt(s(&format!("load {}", name))), var_stmt("level", num(level as f64))];
+                    if level < len {
+                        body.push(st(StmtKind::Import(format!("l{}", level + 1), Some("next".into()))));
+                    }
+                    if level == thrower {
+                        body.push(st(StmtKind::Import("chaincfg".into(), None)));
+                        body.push(st(StmtKind::If(get(var("chaincfg"), "fail"), vec![st(StmtKind::Throw(s(&format!("{} failed", name))))], None)));
+                    }
+                    body.push(fn_stmt(func("depth", &[], vec![st(StmtKind::Return(Some(if level < len { bin(BinOp::Add, num(1.0), invoke(var("next"), "depth", vec![])) } else { num(1.0) })))])));
+                    body.push(print_stmt(s(&format!("loaded {}", name))));
+                    modules.insert(name, ModuleSource { program: Some(body), compile_error: false });
+                }
+                let attempt_body = vec![st(StmtKind::Try(
+                    vec![st(StmtKind::Import("l1".into(), Some("m".into()))), st(StmtKind::Return(Some(invoke(var("m"), "depth", vec![]))))],
+                    Some(("e".into(), vec![st(StmtKind::Return(Some(Expr::Interp(vec![Part::Lit("failed with ".into()), Part::Expr(var("e"))]))))])),
+                    None,
+                ))];
+                let mut main = vec![fn_stmt(func("attempt", &[], attempt_body))];
+                let call_attempt = || -> Expr {
+                    if in_fiber {
+                        invoke(invoke(var("Fiber"), "new", vec![lambda_expr(&[], call(var("attempt"), vec![]))]), "call", vec![])
+                    } else {
+                        call(var("attempt"), vec![])
+                    }
+                };
+                main.push(print_stmt(call_attempt()));
+                main.push(print_stmt(call_attempt()));
+                main.push(st(StmtKind::Import("chaincfg".into(), None)));
+                main.push(expr_stmt(set(var("chaincfg"), "fail", Expr::False)));
+                main.push(print_stmt(call_attempt()));
+                main.push(print_stmt(call_attempt()));
+                // every module of the chain is now the one loaded module of its path
+                for level in 1..=len {
+                    main.push(st(StmtKind::Import(format!("l{}", level), Some(format!("again{}", level)))));
+                    main.push(print_stmt(get(var(&format!("again{}", level)), "level")));
+                }
+                let mut c = Case::new("chain_of_modules_abandoned_by_one_exception", main);
+                c.modules = modules;
+                out.push(c);
+            }
+        }
+    }
     out
 }
 
